@@ -397,10 +397,14 @@ def tr_xml(repo):
         fail('XmlDocument.serialize: the body-style test')
     w = ifs[0]
     wb = [U(s) for s in code(w.body)]
-    if wb != ['result_inst = result_message_class()',
-              'for i, (k, v) in enumerate(result_message_class._type_info.items()):\n'
-              '    attrs = self.get_cls_attrs(v)\n    result_inst._safe_set(k, ctx.out_object[i], v, attrs)']:
+    if wb[:2] != ['result_inst = result_message_class()',
+                  'for i, (k, v) in enumerate(result_message_class._type_info.items()):\n'
+                  '    attrs = self.get_cls_attrs(v)\n    result_inst._safe_set(k, ctx.out_object[i], v, attrs)']:
         fail('XmlDocument.serialize: the wrapped branch %r' % (wb,))
+    for s in code(w.body)[2:]:
+        # e.g. the element name / namespace the repaired serialize() computes per branch
+        if mentions(s, 'result_inst') or mentions(s, 'out_object'):
+            fail('XmlDocument.serialize: wrapped branch: statement touches result_inst / out_object', s)
     mode = None
     for s in code(w.orelse):
         if isinstance(s, ast.Assign) and len(s.targets) == 1 and U(s.targets[0]) == 'result_inst':
